@@ -262,6 +262,15 @@ impl Ctx {
         }
     }
 
+    /// in isolation mode: say which kind of call is about to run. A process death inside a phase whose
+    /// name starts with "nonverdict" is not this property's business (e.g. totality of the analysis
+    /// belongs to C05, a crash of a frozen reference build to nobody) and is reported as inconclusive.
+    pub fn phase(&mut self, name: &str) {
+        if self.fine {
+            self.line(&format!("P {}\n", name));
+        }
+    }
+
     pub fn count(&mut self, key: &str) {
         *self.counters.entry(key.to_string()).or_insert(0) += 1;
     }
